@@ -190,7 +190,8 @@ def join_path(a, params):
 def mutate_query(draw, path):
     a, params = split_path(path)
     how = draw(st.sampled_from(['repeat', 'value', 'add', 'drop', 'empty',
-                                'badpct', 'rename']))
+                                'badpct', 'rename', 'listshape',
+                                'listshape']))
     if how == 'add' or not params:
         k = draw(st.sampled_from(
             ['limit', 'resources', 'required', 'member_of', 'in_tree',
@@ -199,7 +200,8 @@ def mutate_query(draw, path):
              'resources1', 'required1', 'member_of1', 'in_tree1',
              'resources_A', 'unknown', 'resources01', 'limit ']))
         v = quote(str(draw(st.sampled_from(STRINGS + ['1', '0', 'VCPU:1',
-                                                      'none', 'isolate']))),
+                                                      'none', 'isolate', ',',
+                                                      ' , ', '_A,', ',,']))),
                   safe=':,!')
         params.insert(draw(st.integers(0, len(params))), [k, v])
         return join_path(a, params), 'query:add'
@@ -214,6 +216,25 @@ def mutate_query(draw, path):
         params[i][1] = quote(str(mutated_value(draw, params[i][1] or '')),
                              safe=':,!')
         return join_path(a, params), 'query:value'
+    if how == 'listshape':
+        # the shape of a comma-separated list: only separators, empty
+        # elements, leading / trailing / doubled separators
+        if draw(st.booleans()):
+            # a list-valued parameter the request did not carry, consisting
+            # of separators / blanks only
+            names = ['same_subtree', 'root_required', 'required',
+                     'member_of', 'resources', 'required1', 'member_of1']
+            if 'allocation_candidates' in a:
+                names += ['same_subtree', 'same_subtree', 'root_required']
+            k = draw(st.sampled_from(names))
+            params.append([k, draw(st.sampled_from(
+                [',', ',,', '%20,%20', ',%20', '%20', 'in:,', '!,', ':']))])
+            return join_path(a, params), 'query:list-shape-added'
+        v = params[i][1] or ''
+        params[i][1] = draw(st.sampled_from(
+            [',', ',,', '%20,%20', v + ',', ',' + v, v.replace(',', ',,'),
+             v + ',%20', ':', v.replace(':', '::')]))
+        return join_path(a, params), 'query:list-shape'
     if how == 'drop':
         del params[i]
         return join_path(a, params), 'query:drop'
@@ -352,3 +373,23 @@ def mutate(draw, req):
             lb = 'method'
         labels.append(lb)
     return r, labels
+
+
+LIST_PARAMS = ['same_subtree', 'root_required', 'required', 'member_of',
+               'resources', 'required1', 'member_of1', 'resources1',
+               'in_tree', 'name']
+SEPARATOR_ONLY = [',', ',,', '%20,%20', ',%20', '%20', 'in:,', '!,', ':']
+
+
+def list_shape_variants(valid):
+    """The valid GET request with one more query parameter whose value
+    consists of separators / blanks only (every list-valued parameter x
+    every such value)."""
+    out = []
+    a, params = split_path(valid['p'])
+    for k in LIST_PARAMS:
+        for v in SEPARATOR_ONLY[::2]:
+            r = copy.deepcopy(valid)
+            r['p'] = join_path(a, params + [[k, v]])
+            out.append(r)
+    return out
